@@ -80,6 +80,26 @@ def run(ctx):
             o = treerun.run(base, sc, timeout=60)
             runs.append((i, sc, o))
         ans = core.ask(core.MODEL, [o.request for _, _, o in runs])
+        # path resolution itself may fail (EACCES on a component, ENAMETOOLONG, EIO): then the run must fail, never fall back
+        # to copying the link.  One faulted run per scenario that has a resolvable link.
+        for i, sc in enumerate(scs[:40 if ctx.quick else 400]):
+            links = [e for e in sc.entries if e['k'] == 'l' and e['p'].startswith(b'/W/S/') and not any(k in ('dangling', 'self', 'cycle2', 'ancestor') for k in sc.kinds)]
+            if not links:
+                continue
+            e = rng.choice(links)
+            rootp = base + '/R'
+            en = rng.choice([13, 36, 5, 40])      # EACCES ENAMETOOLONG EIO ELOOP
+            plan = [f"fail readlink ={rootp}{e['p'].decode('latin-1')} 1 {en}"]
+            o = treerun.run(base, sc, plan=plan, trace=True, timeout=60)
+            fired = any(ev.get('inj') for ev in o.res.trace)
+            ctx.count('resolution_fault.' + ('fired' if fired else 'not_fired')); ctx.count(f'resolution_fault.exit.{o.res.cls}')
+            ctx.case(('resolve-fault', i, tuple(plan)), fired)
+            if fired and o.res.cls == '0':
+                after = treerun.decode(o.after)
+                left = [p for p, v in after.items() if p.startswith(b'/W/DEST') and v.startswith('l:')]
+                if left:
+                    ctx.violation(f'case-{i}-resolve-fault.json', dict(kinds=sc.kinds, plan=plan, links_left=[repr(p) for p in left], argv=[repr(x) for x in o.argv]),
+                                  f'C13: resolving a link failed ({plan}) but the run exited 0 and left the symbolic link {left[0]!r} in the destination')
     for (i, sc, o), a in zip(runs, ans):
         for k in sc.kinds: ctx.count(f'link.{k}')
         ctx.count(f'exit.{o.res.cls}'); ctx.count(f'driver.{sc.driver}')
